@@ -27,6 +27,9 @@ BATTERIES_QUICK = [
     [["wk.encrypt"], ["wk.keygen"]],
     [["wk.sign"], ["lq.encrypt"], ["pairing", "g1.mul"]],
     [["gt.random"], ["g2.random"], ["wk.decrypt", "g2.mul"]],
+    # inputs shared between the threads (outputs stay private)
+    [["wk.marshal.shared", "wk.encrypt.shared"], ["wk.marshal.shared"], ["wk.encrypt.shared", "pairing.shared"]],
+    [["lq.encrypt.shared"], ["lq.decrypt.shared", "wk.sign.shared"]],
 ]
 BATTERIES_THOROUGH = BATTERIES_QUICK + [
     [["lq.encrypt", "wk.encrypt"], ["wk.sign", "lq.decrypt"], ["gt.random", "pairing"]],
